@@ -544,9 +544,39 @@ def project_item(items, it, v):
     return ("struct", out)
 
 
+def enc_bin(v):
+    """big-endian binary protocol encoding (only used to print non-struct top-level values the way the harness does)"""
+    k = v[0]
+    TT = {"bool": 2, "i8": 3, "double": 4, "i16": 6, "i32": 8, "i64": 10, "binary": 11, "struct": 12, "map": 13, "set": 14, "list": 15, "uuid": 16}
+    if k == "bool":
+        return bytes([1 if v[1] else 0])
+    if k in ("i8", "i16", "i32", "i64"):
+        w = int(k[1:]) // 8
+        return (v[1] % (1 << (8 * w))).to_bytes(w, "big")
+    if k == "dbl":
+        return v[1].to_bytes(8, "big")
+    if k == "bin":
+        return len(v[1]).to_bytes(4, "big") + v[1]
+    if k == "uuid":
+        return v[1]
+    if k == "struct":
+        return b"".join(bytes([TT[wire_tt(x)]]) + (i % 65536).to_bytes(2, "big") + enc_bin(x) for i, x in v[1]) + b"\x00"
+    if k in ("list", "set"):
+        return bytes([TT[v[1]]]) + len(v[2]).to_bytes(4, "big") + b"".join(enc_bin(x) for x in v[2])
+    return bytes([TT[v[1]], TT[v[2]]]) + len(v[3]).to_bytes(4, "big") + b"".join(enc_bin(a) + enc_bin(b) for a, b in v[3])
+
+
+def shown(v):
+    v = canon(v)
+    return sexp(v) if v[0] == "struct" else "raw:" + (enc_bin(v).hex() or "-")
+
+
 def expected(items, name, v):
     try:
-        return sexp(canon(project_item(items, items[name], v)))
+        it = items[name]
+        if it["kind"] in ("typedef", "enum"):
+            return shown(project_ty(items, ("ref", name), v))
+        return sexp(canon(project_item(items, it, v)))
     except Reject:
         return "err"
 
@@ -624,6 +654,27 @@ def fixed_docs():
         {"kind": "union", "name": "Either", "fields": [F(1, "l", R("Leaf")), F(2, "t", R("Tree")), F(5, "n", ("i64",)), F(6, "u", ("uuid",)), F(7, "xs", ("list", ("i32",)))]},
         {"kind": "struct", "name": "Holder", "fields": [F(1, "e", R("Either"), "required"), F(2, "es", ("list", R("Either")), "optional"), F(3, "after", ("i32",), "required")]},
     ]})
+    # defaults of every literal kind, chosen so that a lossy lowering shows: integers beyond f32 / at the f64 rounding
+    # boundary for doubles, lists with adjacent equal elements, struct literals whose keys change under Rust naming
+    docs.append({"name": "dc", "items": [
+        {"kind": "enum", "name": "Lvl", "members": [("Low", 0), ("Mid", 5), ("High", 9)]},
+        {"kind": "struct", "name": "Pt", "fields": [F(1, "xCoord", ("i32",)), F(2, "UserName", ("string",), "optional"), F(3, "plain", ("i32",), "default", ("int", 4)),
+                                                    F(4, "RetryCount", ("i64",), "required"), F(5, "lvl", R("Lvl"), "optional")]},
+        {"kind": "struct", "name": "Dflt", "fields": [
+            F(1, "d1", ("double",), "default", ("int", 16777217)), F(2, "d2", ("double",), "optional", ("int", 1700000001)),
+            F(3, "d3", ("double",), "default", ("int", -9007199254740993)), F(4, "d4", ("double",), "optional", ("dbl", "0.1")),
+            F(5, "l1", ("list", ("i32",)), "default", ("list", [("int", 0), ("int", 0), ("int", 7)])),
+            F(6, "l2", ("list", ("string",)), "optional", ("list", [("str", "a"), ("str", "a"), ("str", "b")])),
+            F(7, "l3", ("list", ("bool",)), "default", ("list", [("int", 1), ("int", 1), ("int", 0)])),
+            F(8, "l4", ("list", R("Lvl")), "optional", ("list", [("enum", "Lvl", "Mid"), ("int", 5), ("enum", "Lvl", "Low")])),
+            F(9, "p", R("Pt"), "default", ("map", [(("str", "xCoord"), ("int", 5)), (("str", "UserName"), ("str", "n")), (("str", "RetryCount"), ("int", 9))])),
+            F(10, "q", R("Pt"), "optional", ("map", [(("str", "RetryCount"), ("int", 1)), (("str", "lvl"), ("enum", "Lvl", "High"))])),
+            F(11, "i8max", ("i8",), "default", ("int", 127)), F(12, "i64min", ("i64",), "optional", ("int", -9223372036854775807)),
+            F(13, "s1", ("set", ("i32",)), "default", ("list", [("int", 3), ("int", 1), ("int", 2)])),
+            F(14, "m1", ("map", ("i32",), ("list", ("i32",))), "optional", ("map", [(("int", 1), ("list", [("int", 2), ("int", 2)]))])),
+            F(15, "b1", ("bool",), "default", ("int", 2)), F(16, "bin", ("binary",), "optional", ("str", "a b")),
+        ]},
+    ]})
     return docs
 
 
@@ -661,11 +712,14 @@ def random_doc(r, name):
         if k in ("i8", "i16", "i32", "i64"):
             return ("int", r.randrange(-100, 100))
         if k == "double":
-            return ("int", r.randrange(-3, 9)) if r.random() < 0.5 else ("dbl", r.choice(["0.5", "-2.25", "1e3", "3.0"]))
+            return ("int", r.choice([r.randrange(-3, 9), 16777217, 33554433, 2 ** 53 + 1, -(2 ** 31) - 1])) if r.random() < 0.5 else ("dbl", r.choice(["0.5", "-2.25", "1e3", "3.0", "0.1"]))
         if k in ("string", "binary"):
             return ("str", r.choice(["", "a", "hello world", "x_y-z"]))
         if k == "list" and ty[1][0] in ("i32", "string", "bool"):
-            return ("list", [d for d in (rdefault(ty[1]) for _ in range(r.randrange(0, 3))) if d is not None])
+            xs = [d for d in (rdefault(ty[1]) for _ in range(r.randrange(0, 3))) if d is not None]
+            if xs and r.random() < 0.5:
+                xs.insert(0, xs[0])          # adjacent equal elements
+            return ("list", xs)
         if k == "ref":
             it = next((x for x in items if x["name"] == ty[1]), None)
             if it and it["kind"] == "enum":
@@ -762,6 +816,12 @@ def evolve(items, it, v, r):
     """rewrite a conforming struct value as a writer with a different schema would have sent it"""
     fs = list(v[1])
     declared = {f["id"] for f in it["fields"]}
+    if r.random() < 0.6:
+        # an unknown bool field immediately before a container of bools (compact: the skipped field's value lives in its header)
+        for j, (i, x) in enumerate(fs):
+            if (x[0] in ("list", "set") and x[1] == "bool" and x[2]) or (x[0] == "map" and "bool" in (x[1], x[2]) and x[3]):
+                fs.insert(j, (r.choice([u for u in (77, 1234, -7) if u not in declared]), ("bool", r.random() < 0.5)))
+                break
     for _ in range(r.randrange(1, 4)):
         c = r.randrange(6)
         if c == 5 and fs:     # same field, same container kind, another element type
